@@ -15,7 +15,9 @@ unsigned char g_ans1, g_ans2;  /* wrapper: what the implementation answers for P
 double g_px, g_py; int g_calls; const void *g_list;
 #include "point_macros.h"
 #include "gen.c"
+#if defined(UNIT_point2_sub) || defined(UNIT_point2_dot) || defined(UNIT_point2_norm_square) || defined(UNIT_polygon_impl)
 #include "point_contracts.h"
+#endif
 
 #ifdef UNIT_point2_sub
 void h_point2_sub(void) { struct Point2 a, b; Point2_op_sub(&a, &b); REACHABLE(); }
@@ -61,4 +63,18 @@ __CPROVER_ensures(point->coordinate_system == E_CoordinateSystem_spherical ==> (
 ;
 void h_polygon_wrapper(void) { struct vec_Point2 l; struct Point2 p; HAVOC(g_ans1); HAVOC(g_ans2); HAVOC(g_px); HAVOC(g_py); HAVOC(g_list);
   Utilities_polygon_contains_point(&l, &p); REACHABLE(); }
+#endif
+
+#ifdef UNIT_angle_across_zero
+/* cyclic interpolation of the plume's rotation angle between two cross sections: the short way round, i.e. when the
+ * two angles are more than pi apart the smaller one is taken one turn further; result wrapped into [0, 2 pi) */
+#define FAR (fabs(FPXA(angle_2 - angle_1)) > G_Consts_PI)
+#define T1 ((FAR && angle_2 > angle_1) ? FPXA(angle_1 + 2.0 * G_Consts_PI) : angle_1)
+#define T2 ((FAR && !(angle_2 > angle_1)) ? FPXA(angle_2 + 2.0 * G_Consts_PI) : angle_2)
+#define ROT FPXA((1 - fraction) * T1 + fraction * T2)
+double Utilities_interpolate_angle_across_zero__contract(double angle_1, double angle_2, double fraction)
+__CPROVER_assigns()
+__CPROVER_ensures(SAME(__CPROVER_return_value, FPXA(ROT - 2 * G_Consts_PI * floor(FPXA(ROT / (2 * G_Consts_PI))))))
+;
+void h_angle_across_zero(void) { double a, b, f; Utilities_interpolate_angle_across_zero(a, b, f); REACHABLE(); }
 #endif
